@@ -468,3 +468,96 @@ theorem keep_eq_sel {cfg : Config} {q : Query} {s e ds : Nat} {f : FileRec}
     | true => rw [keep_of_sel hper hwp hs] at hk; cases hk
 
 end FS
+
+/-! ### frequency bundles of a sorted answer concatenate to the answer -/
+
+namespace FS
+open TM
+
+/-- ordered by frequency bin -/
+def BinSorted (w : Nat) (l : List FileRec) : Prop := l.Pairwise (fun a b => binOf w a ≤ binOf w b)
+
+theorem filter_split_of_binSorted (w b : Nat) :
+    ∀ l : List FileRec, BinSorted w l → (∀ x ∈ l, b ≤ binOf w x) →
+      (l.filter fun g => binOf w g == b) ++ (l.filter fun g => binOf w g != b) = l := by
+  intro l
+  induction l with
+  | nil => intro _ _; rfl
+  | cons x l ih =>
+    intro hs hb
+    have hs' : BinSorted w l := (List.pairwise_cons.mp hs).2
+    have hx := (List.pairwise_cons.mp hs).1
+    have hb' : ∀ y ∈ l, b ≤ binOf w y := fun y hy => hb y (List.mem_cons_of_mem _ hy)
+    by_cases hxb : binOf w x = b
+    · have e1 : (binOf w x == b) = true := by simp [hxb]
+      have e2 : (binOf w x != b) = false := by simp [hxb]
+      simp only [List.filter_cons, e1, e2, if_true, Bool.false_eq_true, if_false, List.cons_append]
+      rw [ih hs' hb']
+    · have hgt : b < binOf w x := by
+        have := hb x (by simp); omega
+      have e1 : ¬ (binOf w x == b) = true := by simp [hxb]
+      have e2 : (binOf w x != b) = true := by simp [hxb]
+      have hnone : (l.filter fun g => binOf w g == b) = [] := by
+        rw [List.filter_eq_nil_iff]
+        intro y hy
+        have := hx y hy
+        simp only [beq_iff_eq]; omega
+      have hall : (l.filter fun g => binOf w g != b) = l := by
+        rw [List.filter_eq_self]
+        intro y hy
+        have := hx y hy
+        simp only [bne_iff_ne, ne_eq]; omega
+      have e1' : (binOf w x == b) = false := by simpa using e1
+      simp only [List.filter_cons, e1', e2, if_true, Bool.false_eq_true, if_false]
+      rw [hnone, hall]; rfl
+
+theorem groupAux_flatten_of_binSorted (w : Nat) :
+    ∀ (fuel : Nat) (l : List FileRec), l.length ≤ fuel → BinSorted w l →
+      (groupAux w fuel l).flatten = l := by
+  intro fuel
+  induction fuel with
+  | zero => intro l h _; simp at h; subst h; simp [groupAux]
+  | succ k ih =>
+    intro l h hs
+    cases l with
+    | nil => simp [groupAux]
+    | cons f t =>
+      simp only [groupAux]
+      have hf := (List.pairwise_cons.mp hs).1
+      have hb : (t.map (binOf w)).foldl min (binOf w f) = binOf w f := by
+        rcases foldl_min_mem (t.map (binOf w)) (binOf w f) with h1 | h1
+        · exact h1
+        · obtain ⟨g, hg, e⟩ := List.mem_map.mp h1
+          have h2 := (foldl_min_le (t.map (binOf w)) (binOf w f)).1
+          have h3 := hf g hg
+          omega
+      rw [hb]
+      have hlen : ((f :: t).filter fun g => binOf w g != binOf w f).length ≤ k := by
+        have : ((f :: t).filter fun g => binOf w g != binOf w f).length < (f :: t).length := by
+          apply List.length_filter_lt_length_iff_exists.mpr
+          exact ⟨f, by simp, by simp⟩
+        simp only [List.length_cons] at h this
+        omega
+      have hsub : BinSorted w ((f :: t).filter fun g => binOf w g != binOf w f) :=
+        List.Pairwise.sublist List.filter_sublist hs
+      rw [List.flatten_cons, ih _ hlen hsub]
+      apply filter_split_of_binSorted w (binOf w f) (f :: t) hs
+      intro x hx
+      rcases List.mem_cons.mp hx with h1 | h1
+      · subst h1; exact le_refl _
+      · exact hf x h1
+
+theorem sortFiles_binSorted (w : Nat) (l : List FileRec) : BinSorted w (sortFiles l) := by
+  apply (sortFiles_sorted l).imp
+  intro a b h
+  unfold keyLe at h
+  simp only [Bool.or_eq_true, Bool.and_eq_true, decide_eq_true_eq] at h
+  unfold binOf
+  apply Nat.div_le_div_right
+  omega
+
+theorem groupByBin_sortFiles_flatten (w : Nat) (l : List FileRec) :
+    (groupByBin w (sortFiles l)).flatten = sortFiles l :=
+  groupAux_flatten_of_binSorted w _ _ (le_refl _) (sortFiles_binSorted w l)
+
+end FS
